@@ -130,6 +130,10 @@ fn main() {
             println!("rtasim: exit {}", code);
             std::process::exit(code);
         }
+        "debug-tight" => {
+            let text = std::fs::read_to_string(&args[2]).unwrap();
+            unicheck::debug_tight(&text);
+        }
         "replay" => {
             let path = &args[2];
             let text = match std::fs::read_to_string(path) {
